@@ -32,9 +32,9 @@ Lemma hf_block_required_not_all_covered : he_missing hf_block C29_required <> []
 Proof. rewrite hf_block_missing. discriminate. Qed.
 
 Lemma hf_block_covered_except_state : forall f, In f C29_required -> f <> "ClientStateHash" ->
-  he_mem f (he_paths hf_block) = true.
+  he_mem f (he_covered hf_block) = true.
 Proof.
-  intros f Hin Hne. destruct (he_mem f (he_paths hf_block)) eqn:M; [reflexivity|exfalso].
+  intros f Hin Hne. destruct (he_mem f (he_covered hf_block)) eqn:M; [reflexivity|exfalso].
   assert (In f (he_missing hf_block C29_required)).
   { unfold he_missing. apply filter_In. split; [assumption|]. rewrite M. reflexivity. }
   rewrite hf_block_missing in H. destruct H as [E|[]]. congruence.
@@ -109,9 +109,9 @@ Lemma hf_txn_required_not_all_covered : he_missing hf_txn C30_required <> [].
 Proof. rewrite hf_txn_missing. discriminate. Qed.
 
 Lemma hf_txn_covered_except_fee_type : forall f, In f C30_required ->
-  f <> "Fee" -> f <> "TransactionType" -> he_mem f (he_paths hf_txn) = true.
+  f <> "Fee" -> f <> "TransactionType" -> he_mem f (he_covered hf_txn) = true.
 Proof.
-  intros f Hin N1 N2. destruct (he_mem f (he_paths hf_txn)) eqn:M; [reflexivity|exfalso].
+  intros f Hin N1 N2. destruct (he_mem f (he_covered hf_txn)) eqn:M; [reflexivity|exfalso].
   assert (In f (he_missing hf_txn C30_required)).
   { unfold he_missing. apply filter_In. split; [assumption|]. rewrite M. reflexivity. }
   rewrite hf_txn_missing in H. destruct H as [E|[E|[]]]; congruence.
